@@ -1,5 +1,8 @@
 import Proofs.C19.Fuel
 import Proofs.C19.Wire
+import Proofs.C19.P2p
+import Proofs.C19.Desc
+import Proofs.C19.MsText
 /-!
 # C19 — hostile input: parsers are total, read exactly what they return, and build nothing the
 input did not pay for
@@ -221,5 +224,82 @@ example : counted 2 (fun s => match s with | x :: r => some (x, r) | [] => none)
     = .error .tooMany := by decide
 example : counted 3 (fun s => match s with | x :: r => some (x, r) | [] => none) [3, 7, 8, 9, 1]
     = .ok ([7, 8, 9], [1]) := by decide
+
+/-! ## the models that landed later: p2p envelope and payloads (C05), Base58Check / bech32 (C06),
+descriptors (C14), miniscript text (C15) -/
+
+/-- T1 for the p2p layer: the envelope and every modelled payload item read at least one byte. -/
+theorem p2p_parsers_make_progress (H : Bytes → Bytes) :
+    Consuming (msg H) ∧ Consuming msgHead ∧ Consuming netAddr ∧ Consuming timedAddr ∧ Consuming inventory ∧
+    Consuming locator ∧ Consuming addr ∧ Consuming inv ∧ Consuming headers :=
+  ⟨consuming_of (lawful_msg H) (nonEmpty_msg H), consuming_of lawful_msgHead nonEmpty_msgHead,
+   consuming_of lawful_netAddr nonEmpty_netAddr, consuming_of lawful_timedAddr nonEmpty_timedAddr,
+   consuming_of lawful_inventory nonEmpty_inventory, consuming_of lawful_locator nonEmpty_locator,
+   consuming_of lawful_addr (nonEmpty_listUpTo _ _), consuming_of lawful_inv (nonEmpty_listUpTo _ _),
+   consuming_of lawful_headers (nonEmpty_listUpTo _ _)⟩
+
+/-- T3 for the p2p payloads (`count = var_int.parse(stream); if count > CAP: raise`): above the cap the
+    refusal comes before any item is read, whatever the item is; an accepted payload holds at most CAP
+    items and fewer items than bytes; and the caps are the generated limits. -/
+theorem p2p_counts_are_bounded {α : Type} (m : Nat) (c : Codec α) (hl : Lawful c) (hn : NonEmpty c) (b : Bytes) :
+    (∀ n rest, VarInt.parse b Gen.VarInt.MAX_SIZE = .ok (n, rest) → n > m →
+      (listUpTo m c).parse b = .error .badCount) ∧
+    (∀ l rest, (listUpTo m c).parse b = .ok (l, rest) → l.length ≤ m ∧ l.length + rest.length < b.length) :=
+  ⟨fun n rest h hn' => listUpTo_rejects_above_cap m c b n rest h hn',
+   fun l rest h => listUpTo_bounds m hl hn b l rest h⟩
+
+theorem p2p_caps_are_the_limits :
+    Gen.Wire.MAX_ADDR_TO_SEND = Gen.Limits.MAX_ADDR_TO_SEND ∧ Gen.Wire.MAX_INV_SZ = Gen.Limits.MAX_INV_SZ ∧
+    Gen.Wire.MAX_LOCATOR_SZ = Gen.Limits.MAX_LOCATOR_SZ ∧ Gen.Wire.MAX_HEADERS_RESULTS = Gen.Limits.MAX_HEADERS_RESULTS ∧
+    Gen.Wire.MAX_PROTOCOL_MESSAGE_LENGTH = Gen.Limits.MAX_PROTOCOL_MESSAGE_LENGTH := by decide
+
+/-- the envelope never announces more than the generated message limit: an accepted message's payload
+    is within `MAX_PROTOCOL_MESSAGE_LENGTH`, and is exactly the bytes that followed the header. -/
+theorem accepted_message_is_bounded (H : Bytes → Bytes) (hH : ∀ x, 4 ≤ (H x).length) (b : Bytes) (m : Msg)
+    (rest : Bytes) (hp : (msg H).parse b = .ok (m, rest)) :
+    m.payload.length ≤ Gen.Limits.MAX_PROTOCOL_MESSAGE_LENGTH ∧ m.payload.length + rest.length < b.length := by
+  obtain ⟨hv, hb, hs⟩ := (lawful_msg H).consumed b m rest hp
+  have hvv := (msg_valid H hH m).1 hv
+  refine ⟨hvv.2.2, ?_⟩
+  have hl := congrArg List.length hb
+  have hser : ((msg H).ser m).length = (msgHead.ser (Msg.head H m)).length + m.payload.length := by
+    simp [msg, prefixedBy, Codec.map, Codec.refine, bytesN]
+  have hne := nonEmpty_msgHead (Msg.head H m) hv.1
+  simp only [List.length_append] at hl
+  omega
+
+/-- Base58Check: a text above `MAX_LENGTH` is refused first — no digit is looked up, no big integer is
+    built, nothing is hashed (the same answer for every hash function). -/
+theorem base58_length_is_checked_before_work (H : Bytes → Bytes) (v : List Nat) (o : Option Nat)
+    (h : v.length > Gen.Base58.MAX_LENGTH) : Base58.decode H v o = .error .tooLong :=
+  Base58.decode_too_long H v o h
+
+/-- bech32: what `decode` returns was paid for by the text, character for character. -/
+theorem bech32_decode_is_paid_for (text : List Nat) (m : Option Nat) (hrp data : List Nat)
+    (h : Bech32.decode text m = .ok (hrp, data)) : hrp.length + data.length + 7 = text.length :=
+  Bech32.decode_length text m hrp data h
+
+/-- descriptors (C14's model of `_parse_tree` / `_parse_expression`, any key oracle): any fuel above
+    the length of the text gives the same answer — the fuel is never the reason of a refusal. -/
+theorem descriptor_fuel_suffices (o : Desc.KeyOracle) (e : List Char) (fuel : Nat) (h : e.length + 1 ≤ fuel) :
+    (∀ depth, Desc.parseTree o fuel depth e = Desc.parseTree o (e.length + 1) depth e) ∧
+    (∀ ctx, Desc.parseExpr o fuel ctx e = Desc.parseExpr o (e.length + 1) ctx e) := by
+  obtain ⟨k, rfl⟩ := Nat.exists_eq_add_of_le h
+  exact ⟨fun depth => Desc.parseTree_add o depth e k, fun ctx => Desc.parseExpr_add o ctx e k⟩
+
+/-- miniscript text (C15's recursive-descent model of `miniscript.parse`): every reader returns a rest no
+    longer than its input, and any fuel above the length of the text gives the same answer. -/
+theorem miniscript_text_fuel_suffices (ctx : Miniscript.Ctx) (s : List Char) (fuel : Nat) (h : s.length + 1 ≤ fuel) :
+    Miniscript.pExpr ctx fuel s = Miniscript.pExpr ctx (s.length + 1) s ∧
+    (∀ x r, Miniscript.pExpr ctx fuel s = some (x, r) → r.length ≤ s.length) := by
+  obtain ⟨k, rfl⟩ := Nat.exists_eq_add_of_le h
+  exact ⟨Miniscript.pExpr_add ctx s k, fun x r hp => Miniscript.pExpr_shrinks ctx _ s x r hp⟩
+
+theorem miniscript_parse_fuel_suffices (ctx : Miniscript.Ctx) (s : List Char) (k : Nat) :
+    Miniscript.pWrappedWith (Miniscript.pExpr ctx (s.length.succ + k)) s
+      = Miniscript.pWrappedWith (Miniscript.pExpr ctx s.length.succ) s :=
+  Miniscript.parseSyntax_fuel ctx s k
+
+example : Base58.decode (fun _ => []) (List.replicate 113 49) none = .error .tooLong := by decide
 
 end Props.C19
